@@ -40,7 +40,7 @@ theorem resolveVarNameConflict_tys (sc : Scope) (sug : Str) :
     · exact ih (n + 1) sc' nm h
     · split at h
       · split at h
-        · cases h
+        · cases h; rfl
         · cases h; simp [renameAt_tys]
       · cases h; rfl
 
